@@ -3,7 +3,7 @@ import random
 from harness.kscript import Case
 
 DYADIC = [0, 0, 0.25, 0.5, 0.5, 1, 1, 2]
-EXCS = ['ValueError', 'KeyError', 'RuntimeError', 'ZeroDivisionError']
+EXCS = ['ValueError', 'KeyError', 'RuntimeError', 'ZeroDivisionError', 'Cancelled']      # 'Cancelled' derives from BaseException, not Exception (kscript.Cancelled)
 
 
 def delay(rng, malformed=False):
@@ -93,6 +93,72 @@ def gen_generic(rng, cid, profile, mode='step', malformed=False):
         c.progs.append(gen_prog(rng, profile, nslots, nprogs, pi, malformed, names))
     for i in range(rng.randint(1, 6)):
         c.mains.append((rng.randrange(nprogs), i + 1))
+    return c
+
+
+# ------------------------------------------------------------------------------------------------
+# condition chains (C05): `(a & b) & c`, `(a | b) | c`, `a & (b & c)`, mixed - built two operands at a time into EVEN slots, which
+# the interpreter writes with the operators `&` / `|` - over timeouts, shared events succeeded or failed by another process and
+# child processes that return or raise; inner conditions still pending when the chain is extended; failing non-last operands
+
+def gen_chain(rng, cid, mode='step'):
+    c = Case(cid, mode)
+    nleaf = rng.randint(3, 5)
+    times = [0, 0.5, 1, 1, 2, 3]
+    pfail = rng.choice([0.15, 0.35, 0.6])
+    builder, others = [], []
+    names = 300
+    c.progs.append(builder)
+    c.mains.append((0, 1))
+    for i in range(nleaf):
+        kind = rng.choice(['timeout', 'event', 'event', 'process', 'process'])
+        t = rng.choice(times)
+        bad = rng.random() < pfail
+        if kind == 'timeout':
+            builder.append(('timeout', i, t, val(rng)))
+        elif kind == 'event':
+            builder.append(('event', i))
+            c.progs.append([('timeout', 10 + i, t, None), ('yield', 10 + i, 0),
+                            ('fail', i, rng.choice(EXCS), rng.randint(0, 9)) if bad else ('succeed', i, val(rng))])
+            others.append(len(c.progs) - 1)
+        else:
+            names += 1
+            c.progs.append([('timeout', 10 + i, t, None), ('yield', 10 + i, 0),
+                            ('raise', rng.choice(EXCS), rng.randint(0, 9)) if bad else ('ret', val(rng))])
+            builder.append(('spawn', i, len(c.progs) - 1, names))
+    same = rng.random() < 0.75
+    k0 = rng.choice(['allof', 'anyof'])
+    kind = lambda: k0 if same else rng.choice(['allof', 'anyof'])
+    leaves = list(range(nleaf))
+    rng.shuffle(leaves)
+    top = 20
+    if rng.random() < 0.2:
+        builder.append((kind(), top, leaves[1], leaves[2]))               # a op (b op c)
+        builder.append((kind(), top + 2, leaves[0], top))
+        top, rest = top + 2, leaves[3:]
+    else:
+        builder.append((kind(), top, leaves[0], leaves[1]))               # (a op b) op c op ...
+        rest = leaves[2:]
+    for x in rest:
+        if rng.random() < 0.2:
+            builder += [('timeout', 40, rng.choice([0, 0.5, 1]), None), ('yield', 40, 0)]     # the inner condition may be done by now
+        if rng.random() < 0.15:
+            builder.append((kind(), top + 1, top, x, rng.choice(leaves)))                     # odd slot: through all_of / any_of lists
+            top += 1
+            top += top % 2
+            continue
+        builder.append((kind(), top + 2, top, x))
+        top += 2
+    if rng.random() < 0.3:
+        c.progs.append([('timeout', 41, rng.choice([0, 0.5]), None), ('yield', 41, 0), ('yield', 20, rng.choice([0, 3])), ('log', 71)])
+        others.append(len(c.progs) - 1)
+    builder += [('yield', top, rng.choice([0, 0, 0, 2, 3, 12])), ('log', 70)]
+    for x in rng.sample(leaves, rng.randint(0, 2)):
+        builder.append(('yield', x, rng.choice([0, 0, 3])))
+    for j, pi in enumerate(others):
+        c.mains.append((pi, 2 + j))
+    if rng.random() < 0.5:
+        rng.shuffle(c.mains)
     return c
 
 
@@ -280,6 +346,34 @@ def gen_plan(rng, base: Case, cid):
     return c
 
 
+def gen_until_fail(rng, cid):
+    """a split plan whose run(until=event) waits for an event that another process fails (or a child process that raises)
+    while nobody, or somebody, handles the failure: C02 'a failed event that no waiter handles makes run()/step() raise'"""
+    c = Case(cid, 'plan')
+    t = rng.choice([0, 0.5, 1, 2])
+    main = []
+    c.progs.append(main)
+    c.mains.append((0, 1))
+    bad = rng.random() < 0.8
+    if rng.random() < 0.5:
+        c.progs.append([('timeout', 5, t, None), ('yield', 5, 0),
+                        ('raise', rng.choice(EXCS), rng.randint(0, 9)) if bad else ('ret', val(rng))])
+        main.append(('spawn', 0, 1, 301))
+    else:
+        main.append(('event', 0))
+        c.progs.append([('timeout', 5, t, None), ('yield', 5, 0),
+                        ('fail', 0, rng.choice(EXCS), rng.randint(0, 9)) if bad else ('succeed', 0, val(rng))])
+        c.mains.append((1, 2))
+    for j in range(rng.choice([0, 0, 0, 1, 2])):
+        c.progs.append([('timeout', 6 + j, rng.choice([0, 0.5]), None), ('yield', 6 + j, 0), ('yield', 0, rng.choice([0, 0, 3])), ('log', 80 + j)])
+        c.mains.append((len(c.progs) - 1, 3 + j))
+    main += [('timeout', 9, rng.choice([1, 3]), 7), ('yield', 9, 0), ('log', 81)]
+    c.plan = [('S', rng.randint(1, 4)), ('E', 0)]
+    if rng.random() < 0.5:
+        c.plan.append(rng.choice([('T', float(t + 1)), ('S', 2), ('E', 9)]))
+    return c
+
+
 # ------------------------------------------------------------------------------------------------
 # interrupts (C04): victims with long waits and the five handler behaviours, interrupters that hit them at
 # chosen instants (before, exactly at, after the victim's target is due; right after spawn; several at once),
@@ -290,25 +384,40 @@ def gen_intr(rng, cid, mode='step'):
     nv = rng.randint(1, 3)
     shared = 10            # slots 10.. hold the victims' targets (shared with co-waiters)
     names = 200
+    joins = []
     # programs 0..nv-1: victims
     for v in range(nv):
         prog = []
         if rng.random() < 0.3:
             prog.append(('log', v))
+        done = []          # slots of this victim whose event has been waited for (processed, unless an interrupt cut the wait short)
         for k in range(rng.randint(1, 5)):
             sl = shared + 3 * v + (k % 3)
             kind = rng.random()
-            if kind < 0.7:
+            if kind < 0.6:
                 prog.append(('timeout', sl, rng.choice([0.5, 1, 1, 2, 2, 3, 0]), rng.randint(0, 30)))
-            elif kind < 0.85:
+            elif kind < 0.72:
                 prog.append(('event', sl))
+            elif kind < 0.85:
+                # the victim joins a child process that returns or raises after a while (its end is an ordinary event, possibly of
+                # the very instant at which the victim is interrupted); the child's program is appended at the end
+                names += 1
+                joins.append((prog, len(prog), names))
+                prog.append(('spawn', sl, None, names))
             else:
                 prog.append(('anyof', sl, shared + 3 * v, shared + 3 * v + 1))
             prog.append(('yield', sl, rng.choice([0, 0, 1, 1, 1, 2, 3, 11, 12])))
+            done.append(sl)
             if rng.random() < 0.3:
                 prog.append(('log', 50 + k))
+            if rng.random() < 0.2:
+                # the victim tries to interrupt ITSELF (slot v holds its own Process, put there by the starter): refused with
+                # RuntimeError - on a stretch entered from the event loop, or on one continued after an already processed event
+                if rng.random() < 0.6:
+                    prog.append(('yield', rng.choice(done), 0))
+                prog.append(('interrupt', v, 80 + k))
         if rng.random() < 0.2:
-            prog.append(rng.choice([('ret', 7), ('raise', 'KeyError', 3)]))
+            prog.append(rng.choice([('ret', 7), ('raise', 'KeyError', 3), ('raise', 'Cancelled', 5)]))
         c.progs.append(prog)
     # program nv: the starter spawns the victims into slots 0..nv-1, maybe interrupting at once
     starter = []
@@ -317,21 +426,56 @@ def gen_intr(rng, cid, mode='step'):
         starter.append(('spawn', v, v, names))
         if rng.random() < 0.25:
             starter.append(('interrupt', v, 90 + v))     # before the victim's first statement has run
-    if rng.random() < 0.5:
-        starter += [('yield', 0, 0)]
     c.progs.append(starter)
     c.mains.append((nv, 1))
+    helper = nv + 1        # a bystander process interrupters start between two interrupts (another urgent occurrence)
+    c.progs.append([('log', 98)] + ([('timeout', 48, rng.choice([0, 1]), None), ('yield', 48, 0)] if rng.random() < 0.5 else []))
     # interrupters
     for i in range(rng.randint(1, 4)):
         prog = []
         for k in range(rng.randint(1, 4)):
-            prog += [('timeout', 30 + i, rng.choice([0, 0.5, 1, 1, 2, 2, 3, 4]), None), ('yield', 30 + i, 0)]
-            for _ in range(rng.choice([1, 1, 1, 2, 3])):
+            if joins and rng.random() < 0.25:
+                # wake on the timeout a joined child is sleeping on (slot 58), right behind that child: the child's generator
+                # ends and, in the same kernel step, the interrupt hits the process that is joining it
+                prog += [('yield', 58, 0)]
+            else:
+                prog += [('timeout', 30 + i, rng.choice([0, 0.5, 1, 1, 2, 2, 3, 4]), None), ('yield', 30 + i, 0)]
+            for _ in range(rng.choice([1, 1, 1, 2, 3, 3])):
                 prog.append(('interrupt', rng.randrange(nv), 10 * i + k))
-        if rng.random() < 0.15:
-            prog.append(('interrupt', 40, 1))            # slot 40 holds the interrupter itself: self-interrupt is refused
+                if rng.random() < 0.15:
+                    names += 1
+                    prog.append(('spawn', 44, helper, names))
         c.progs.append(prog)
-        c.mains.append((len(c.progs) - 1, 2 + i))
+        if rng.random() < 0.15:
+            # started by the starter into slot 40+i, so that the interrupter can name itself: self-interrupt is refused
+            prog.append(('interrupt', 40 + i, 1))
+            names += 1
+            starter.append(('spawn', 40 + i, len(c.progs) - 1, names))
+        else:
+            c.mains.append((len(c.progs) - 1, 2 + i))
+    if rng.random() < 0.5:
+        starter += [('yield', 0, 0)]
+    if rng.random() < 0.4:
+        # the 'keep waiting' loop among several waiters: P waits for E (slot 50) and yields it again when interrupted; other
+        # processes start to wait for E before / after the interrupt; then E occurs: everybody is resumed once, in the order
+        # of their CURRENT registrations (P's second yield counts, not its first)
+        isev = rng.random() < 0.4
+        due = rng.choice([1, 2, 3])
+        names += 1
+        starter.append(('spawn', 51, len(c.progs), names))
+        c.progs.append([('event', 50) if isev else ('timeout', 50, due, rng.randint(0, 30)),
+                        ('yield', 50, rng.choice([1, 1, 1, 12])), ('yield', 50, rng.choice([0, 1])), ('log', 60)])
+        for j in range(rng.randint(1, 3)):
+            c.progs.append([('timeout', 52 + j, rng.choice([0, 0.5, 0.5, 1, 2]), None), ('yield', 52 + j, 0),
+                            ('yield', 50, rng.choice([0, 0, 3])), ('log', 61 + j)])
+            c.mains.append((len(c.progs) - 1, 30 + j))
+        c.progs.append([('timeout', 56, rng.choice([0.5, 1, 1, 2]), None), ('yield', 56, 0), ('interrupt', 51, 77)] +
+                       ([('interrupt', 51, 78)] if rng.random() < 0.3 else []))
+        c.mains.append((len(c.progs) - 1, 35))
+        if isev:
+            c.progs.append([('timeout', 57, due, None), ('yield', 57, 0),
+                            rng.choice([('succeed', 50, 6), ('fail', 50, 'KeyError', 2), ('fail', 50, 'Cancelled', 2)])])
+            c.mains.append((len(c.progs) - 1, 36))
     # co-waiters on the victims' targets, and triggerers of their shared events
     for i in range(rng.randint(0, 3)):
         v = rng.randrange(nv)
@@ -343,4 +487,9 @@ def gen_intr(rng, cid, mode='step'):
             prog += [rng.choice([('succeed', sl, 5), ('fail', sl, 'ValueError', 4)])]
         c.progs.append(prog)
         c.mains.append((len(c.progs) - 1, 20 + i))
+    # the children the victims join
+    for prog, pos, nm in joins:
+        c.progs.append([('timeout', 58, rng.choice([0, 0.5, 1, 1, 2]), None), ('yield', 58, 0),
+                        rng.choice([('ret', 4), ('ret', None), ('raise', 'KeyError', 6)])])
+        prog[pos] = ('spawn', prog[pos][1], len(c.progs) - 1, nm)
     return c
